@@ -139,15 +139,11 @@ impl Router {
         match notification.method.as_str() {
             "textDocument/didChange" => {
                 let params = DidChangeTextDocumentParams::deserialize(notification.params).unwrap();
-                Arc::get_mut(&mut self.server)
-                    .unwrap()
-                    .handle_did_change_text_document(params);
+                Arc::make_mut(&mut self.server).handle_did_change_text_document(params);
             }
             "textDocument/didSave" => {
                 let params = DidSaveTextDocumentParams::deserialize(notification.params).unwrap();
-                Arc::get_mut(&mut self.server)
-                    .unwrap()
-                    .handle_did_save_text_document(params);
+                Arc::make_mut(&mut self.server).handle_did_save_text_document(params);
             }
             default => {
                 debug!("unhandled request: {}", default)
